@@ -84,37 +84,42 @@ func T(n int, _ ...int) int {
 
 // ---- reference coroutine: the source body on its own goroutine, Yield really suspends ----
 
-type msg struct {
+type msg[T any] struct {
 	kind int // 0 yield, 1 end, 2 panic
-	v    int
+	v    T
 	p    any
 }
 
-type Y struct {
+type YT[T any] struct {
 	resume chan bool // true = continue, false = abandon
-	out    chan msg
+	out    chan msg[T]
 }
 
-func (y *Y) Yield(v int) {
-	y.out <- msg{kind: 0, v: v}
+func (y *YT[T]) Yield(v T) {
+	y.out <- msg[T]{kind: 0, v: v}
 	if !<-y.resume {
 		runtime.Goexit()
 	}
 }
 
-type RefIter struct {
-	y       *Y
-	f       func(*Y)
+type PullerOf[T any] interface {
+	MoveNext() bool
+	Current() T
+}
+
+type RefIterT[T any] struct {
+	y       *YT[T]
+	f       func(*YT[T])
 	started bool
 	done    bool
-	cur     int
+	cur     T
 }
 
-func StartRef(f func(*Y)) *RefIter {
-	return &RefIter{y: &Y{resume: make(chan bool), out: make(chan msg)}, f: f}
+func StartRefT[T any](f func(*YT[T])) *RefIterT[T] {
+	return &RefIterT[T]{y: &YT[T]{resume: make(chan bool), out: make(chan msg[T])}, f: f}
 }
 
-func (it *RefIter) MoveNext() bool {
+func (it *RefIterT[T]) MoveNext() bool {
 	if it.done {
 		return false
 	}
@@ -123,23 +128,24 @@ func (it *RefIter) MoveNext() bool {
 		go func() {
 			defer func() {
 				if r := recover(); r != nil {
-					it.y.out <- msg{kind: 2, p: r}
+					it.y.out <- msg[T]{kind: 2, p: r}
 				}
 			}()
 			it.f(it.y)
-			it.y.out <- msg{kind: 1}
+			it.y.out <- msg[T]{kind: 1}
 		}()
 	} else {
 		it.y.resume <- true
 	}
 	m := <-it.y.out
+	var zero T
 	switch m.kind {
 	case 0:
 		it.cur = m.v
 		return true
 	case 1:
 		it.done = true
-		it.cur = 0
+		it.cur = zero
 		return false
 	default:
 		it.done = true
@@ -147,23 +153,34 @@ func (it *RefIter) MoveNext() bool {
 	}
 }
 
-func (it *RefIter) Current() int { return it.cur }
+func (it *RefIterT[T]) Current() T { return it.cur }
 
 // Stop abandons a suspended reference coroutine
-func (it *RefIter) Stop() {
+func (it *RefIterT[T]) Stop() {
 	if it.started && !it.done {
 		it.done = true
 		it.y.resume <- false
 	}
 }
 
-// Drain: pull up to max values, logging consumer-side markers, then two more advances after the end.
-type Puller interface {
-	MoveNext() bool
-	Current() int
+// YieldFromRef: delegation in the reference world - pull the delegate, re-yield every element
+func YieldFromRef[T any](y *YT[T], it PullerOf[T]) {
+	for it.MoveNext() {
+		y.Yield(it.Current())
+	}
 }
 
-func Drain(mk func() Puller, max int, fuel int) (trace []string) {
+// the int instance used by mode-A programs
+type Y = YT[int]
+type RefIter = RefIterT[int]
+type Puller = PullerOf[int]
+
+func StartRef(f func(*Y)) *RefIter { return StartRefT[int](f) }
+
+type stopper interface{ Stop() }
+
+// DrainT: pull up to max values, logging consumer-side markers, then two more advances after the end.
+func DrainT[T any](mk func() PullerOf[T], max int, fuel int) (trace []string) {
 	Reset(fuel)
 	defer func() {
 		if r := recover(); r != nil {
@@ -177,7 +194,7 @@ func Drain(mk func() Puller, max int, fuel int) (trace []string) {
 		Emit("M")
 		if !it.MoveNext() {
 			Emit("END")
-			Emit(fmt.Sprintf("cur=%d", it.Current()))
+			Emit(fmt.Sprintf("cur=%v", it.Current()))
 			Emit("M")
 			if it.MoveNext() {
 				Emit("RESURRECTED")
@@ -185,10 +202,28 @@ func Drain(mk func() Puller, max int, fuel int) (trace []string) {
 			Emit("END2")
 			break
 		}
-		Emit(fmt.Sprintf("Y%d", it.Current()))
+		Emit(fmt.Sprintf("Y%v", it.Current()))
 	}
-	if r, ok := it.(*RefIter); ok {
+	if r, ok := any(it).(stopper); ok {
 		r.Stop()
 	}
 	return nil
 }
+
+func Drain(mk func() Puller, max int, fuel int) []string { return DrainT[int](mk, max, fuel) }
+
+// CallT: run a plain function, logging its result or panic
+func CallT[R any](f func() R, fuel int) (trace []string) {
+	Reset(fuel)
+	defer func() {
+		if r := recover(); r != nil {
+			Emit(fmt.Sprintf("PANIC(%v)", r))
+		}
+		trace = append([]string(nil), Log...)
+	}()
+	Emit(fmt.Sprintf("RESULT %v", f()))
+	return nil
+}
+
+// E: log an event from template code
+func E(args ...any) { Emit(fmt.Sprint(args...)) }
